@@ -1025,8 +1025,14 @@ static void cmd_reset (int argc, char **argv)
 
 static int raw_connect (unsigned long uid)
 {
-  struct sockaddr_un sa; int fd;
-  if (nclients >= MAX_CLIENTS) return -1;
+  struct sockaddr_un sa; int fd; int slot;
+  /* reuse the slot of a closed client when the table is full */
+  slot = nclients;
+  if (nclients >= MAX_CLIENTS)
+    {
+      for (slot = 0; slot < MAX_CLIENTS; slot++) if (!clients[slot].open) break;
+      if (slot >= MAX_CLIENTS) { errno = EMFILE; return -1; }
+    }
   fd = socket (AF_UNIX, SOCK_STREAM | SOCK_NONBLOCK | SOCK_CLOEXEC, 0);
   if (fd < 0) return -1;
   memset (&sa, 0, sizeof sa);
@@ -1035,8 +1041,9 @@ static int raw_connect (unsigned long uid)
   if (uid != 0 && seteuid ((uid_t) uid) != 0) { close (fd); return -1; }
   if (connect (fd, (struct sockaddr *) &sa, sizeof sa) < 0) { int e = errno; if (uid != 0) { if (seteuid (0)) _exit (4); } close (fd); errno = e; return -1; }
   if (uid != 0 && seteuid (0) != 0) _exit (4);
-  clients[nclients].fd = fd; clients[nclients].open = 1; clients[nclients].nodrain = 0;
-  return nclients++;
+  clients[slot].fd = fd; clients[slot].open = 1; clients[slot].nodrain = 0;
+  if (slot == nclients) nclients++;
+  return slot;
 }
 
 static int write_all (int c, const void *p, size_t n)
